@@ -60,18 +60,32 @@ func GenPlan(t *rapid.T, keys []string) Plan {
 	return p
 }
 
+// MaxInput bounds the size of a mutated input. Every channel the targets model is bounded in production (HTTP response
+// and request size limits of 1 MiB, gRPC message limit 512 KiB); composing "bigstring" operators can exceed that by orders
+// of magnitude, which only measures allocation speed. Callers skip cases with Applied.Oversize.
+const MaxInput = 256 * 1024
+
 // Applied reports what Apply did.
 type Applied struct {
-	Descs   []jsonmut.Desc
-	NoOps   int
-	RawDone bool
+	Descs    []jsonmut.Desc
+	NoOps    int
+	RawDone  bool
+	Oversize bool
 }
 
 // ApplyDoc applies the structural mutations of the plan to a decoded document.
 func (p Plan) ApplyDoc(doc any) (any, Applied) {
 	var a Applied
 	cur := doc
+	big := 0
 	for _, m := range p.Muts {
+		if m.Op == "bigstring" {
+			// composing bigstring multiplies sizes (up to 12 601 x per application): at most one per plan
+			if big++; big > 1 {
+				a.NoOps++
+				continue
+			}
+		}
 		out, d, ok := jsonmut.Apply(cur, m)
 		if !ok {
 			a.NoOps++
@@ -98,10 +112,15 @@ func (p Plan) Apply(seed []byte) ([]byte, Applied) {
 	}
 	mut, a := p.ApplyDoc(doc)
 	out := jsonmut.Encode(mut)
+	if len(out) > MaxInput {
+		a.Oversize = true
+		return out, a
+	}
 	if p.Raw != nil {
 		out = p.Raw.Apply(out, mut)
 		a.RawDone = true
 	}
+	a.Oversize = len(out) > MaxInput
 	return out, a
 }
 
